@@ -68,6 +68,17 @@ def build_case(beh, name, shape_seed=0):
                 res.append({"op": "defer", "via": "actor", "aid": o["aid"], "item": item(o["item"])})
             elif k == "vdefer":
                 res.append({"op": "vdefer", "item": item(o["item"])})
+            elif k == "apply":
+                if o["qb"] == "held":
+                    # ran later, when the actor became Ready: its body is in the script
+                    res.append({"op": "apply", "aid": o["aid"], "item": item(o["item"])})
+                else:
+                    body = []
+                    if o["qb"] == "stop":
+                        body = [{"op": "stop"}]
+                    elif o["qb"] == "fail":
+                        body = [{"op": "fail", "code": o["code"]}]
+                    res.append({"op": "apply", "aid": o["aid"], "item": {"id": o["item"], "ops": body}})
             elif k == "query":
                 body = []
                 if o["qb"] == "stop":
@@ -98,7 +109,7 @@ KEYS = {
     "tact": ["tid", "kind", "res"], "nexp": ["has", "x"],
     "slablen": ["aid", "ready", "len"], "slabdrop": ["aid"],
     "mkfwd": ["fid", "aid"], "fwd": ["fid", "val"], "fcall": ["fid", "aid", "val"],
-    "query": ["item", "aid"], "querye": ["item", "aid", "some"],
+    "apply": ["item", "aid"], "query": ["item", "aid"], "querye": ["item", "aid", "some"],
 }
 
 
